@@ -1109,7 +1109,7 @@ impl Sup {
     }
 
     /// Step to the n-th atomic instruction of this segment (executing it), then `after` more instructions, and park.
-    fn step_to_atomic(&mut self, i: usize, n: u64, after: u64, cap: u64) -> Option<bool> {
+    fn step_to_atomic(&mut self, i: usize, n: u64, after: u64, cap: u64, before: bool) -> Option<bool> {
         let tid = self.ths[i].tid;
         let mut seen = 0u64;
         let mut left = after;
@@ -1131,6 +1131,11 @@ impl Sup {
                 left -= 1;
             } else if Self::is_atomic_insn(word) {
                 seen += 1;
+                if before && seen >= n && total > 0 {
+                    // park with the n-th atomic instruction still to be executed: whatever the thread has read so far (a count, a
+                    // flag) can go stale before its read-modify-write happens - the switch point loom puts before every atomic
+                    return Some(true);
+                }
             }
             total += 1;
             let sig = std::mem::replace(&mut self.ths[i].pending_sig, 0);
@@ -1175,7 +1180,8 @@ impl Sup {
                     let r = if self.cfg.sched.ustep_locks > 0 {
                         let n = 1 + self.ustep_rng.below(self.cfg.sched.ustep_locks);
                         let after = self.ustep_rng.below(self.cfg.sched.ustep_after.max(1));
-                        self.step_to_atomic(i, n, after, self.cfg.sched.ustep_max.max(200))
+                        let before = self.ustep_rng.below(2) == 0;
+                        self.step_to_atomic(i, n, after, self.cfg.sched.ustep_max.max(200), before)
                     } else {
                         self.single_step(i, k, aim)
                     };
